@@ -1,8 +1,53 @@
-(** C11 - property theorems only. *)
-From Coq Require Import List String.
-From MX Require Import C3.Model Names.Model Names.Proofs.
+(** C11 - Rejected edits change nothing; the inheritance relation stays
+    well-formed.  Property theorems only (model: Names/Model.v). *)
+From Coq Require Import List String Bool.
+From MX Require Import C3.Model Names.Model Names.ProofsNoop Names.ProofsNames Names.ProofsInv.
 Import ListNotations.
 
-Theorem C11_init : all_mro_ok (graph_of init) = true /\ all_disjoint init = true.
-Proof. exact init_ok. Qed.
-Print Assumptions C11_init.
+(** for EVERY state (reachable or not) and every operation: a rejection - an
+    invalid or clashing name, cyclic inheritance, bases without a consistent
+    linearisation, a name conflict between members, deleting a derived member,
+    renaming a cells that has base cells, a malformed formula, None assigned to
+    a cells, ... - returns the state it was applied to.  The model keeps the
+    code's order "put the cells / the space into its container, then fail" for
+    new_cells and new_space, so this includes that the roll-back is exact. *)
+Theorem C11_rejected_noop : forall st o r st', step st o = (Rejected r, st') -> st' = st.
+Proof. exact rejected_noop. Qed.
+Print Assumptions C11_rejected_noop.
+
+(** after every history: every space has a C3 linearisation - it starts with
+    the space, has no repetition and lists exactly the space and its ancestors
+    - and no space is its own proper ancestor (the base relation is acyclic) *)
+Theorem C11_wellformed : forall h,
+  let st := run h in
+  let g := graph_of st in
+  (forall p, has_space st p = true ->
+     exists l, mro_of g p = Ok (p :: l) /\ NoDup (p :: l) /\ (forall x, In x (p :: l) <-> anc g p x))
+  /\ (forall p b, In b (bases_of g p) -> ~ anc g b p).
+Proof. exact reachable_wellformed. Qed.
+Print Assumptions C11_wellformed.
+
+(** the structure behind it: the paths of the spaces form a tree (the parent of
+    a space is a space) and every declared base is a space of the model *)
+Theorem C11_structure : forall h,
+  let st := run h in
+  (forall q, has_space st q = true -> q <> [] /\ (parent_of q = [] \/ has_space st (parent_of q) = true))
+  /\ (forall p b, has_space st p = true -> In b (bases_at st p) -> has_space st b = true).
+Proof. exact reachable_structure. Qed.
+Print Assumptions C11_structure.
+
+(** after every history: every component of every space path and the name of
+    every cells (defined or derived) satisfies is_valid_name *)
+Theorem C11_names : forall h,
+  let st := run h in
+  (forall p, In p (keys st) -> p <> [] /\ forallb is_valid_name p = true) /\
+  (forall p n, has_space st p = true -> has_cells st p n = true -> is_valid_name n = true).
+Proof. exact reachable_names. Qed.
+Print Assumptions C11_names.
+
+(** is_valid_name = identifier, not a keyword, no leading underscore *)
+Theorem C11_valid_name_spec : forall s,
+  is_valid_name s = true <->
+  is_identifier s = true /\ ~ In s keywords /\ starts_underscore s = false.
+Proof. exact is_valid_name_spec. Qed.
+Print Assumptions C11_valid_name_spec.
